@@ -2,7 +2,12 @@
 
 package stream
 
-import "time"
+import (
+	"time"
+
+	"github.com/bluenviron/gortsplib/v5/pkg/description"
+	"github.com/bluenviron/gortsplib/v5/pkg/format"
+)
 
 // VerifC24MultiplyAndDivide exposes multiplyAndDivide (stream_format.go).
 func VerifC24MultiplyAndDivide(v, m, d int64) int64 { return multiplyAndDivide(v, m, d) }
@@ -10,4 +15,11 @@ func VerifC24MultiplyAndDivide(v, m, d int64) int64 { return multiplyAndDivide(v
 // VerifC24MultiplyAndDivide2 exposes multiplyAndDivide2 (offline_sub_stream.go).
 func VerifC24MultiplyAndDivide2(v, m, d time.Duration) time.Duration {
 	return multiplyAndDivide2(v, m, d)
+}
+
+// VerifC24ReaderCallback returns the callback a protocol mapper (mpegts/rtmp/moq/webrtc FromStream, the recorder
+// formats) registered on r with OnData for (media, forma), or nil. The C24 call-site family invokes the real
+// closure synchronously with hand-made units instead of going through the reader's queue goroutine.
+func VerifC24ReaderCallback(r *Reader, media *description.Media, forma format.Format) OnDataFunc {
+	return r.onDatas[media][forma]
 }
